@@ -927,3 +927,246 @@ Proof.
   - rewrite IH by auto. apply nth_upd_other; auto.
   - rewrite IH by auto. destruct fixm; auto. apply nth_upd_other; auto.
 Qed.
+
+(* ------------------------------------------------------------------ *)
+(* MERGE_SWITCH_PORTS: the values between non-port objects             *)
+(* ------------------------------------------------------------------ *)
+Lemma cell_inj nb a b c d : (b < nb)%nat -> (d < nb)%nat -> (a * nb + b = c * nb + d)%nat -> a = c /\ b = d.
+Proof.
+  intros Hb Hd H.
+  destruct (Nat.lt_trichotomy a c) as [L|[E|L]].
+  - exfalso. assert ((a + 1) * nb <= c * nb)%nat by (apply Nat.mul_le_mono_r; lia). lia.
+  - subst. split; auto. lia.
+  - exfalso. assert ((c + 1) * nb <= a * nb)%nat by (apply Nat.mul_le_mono_r; lia). lia.
+Qed.
+
+Lemma merge_k_untouched nb i j a b : (i < nb)%nat -> (j < nb)%nat -> (b < nb)%nat ->
+  a <> i -> a <> j -> b <> i -> b <> j ->
+  forall ks v, (forall k, In k ks -> (k < nb)%nat) ->
+  nth (a * nb + b) (merge_k ks nb i j v) 0%N = nth (a * nb + b) v 0%N.
+Proof.
+  intros Hi Hj Hb Hai Haj Hbi Hbj. induction ks as [|k ks IH]; intros v Hk; simpl; auto.
+  assert (Hkn : (k < nb)%nat) by (apply Hk; simpl; auto).
+  destruct ((k =? i)%nat || (k =? j)%nat); [apply IH; intros; apply Hk; simpl; auto|].
+  rewrite IH by (intros; apply Hk; simpl; auto).
+  rewrite !nth_upd_other; auto; intros E; apply cell_inj in E; auto; destruct E; congruence.
+Qed.
+
+Lemma merge_port_untouched nb i j a b v : (i < nb)%nat -> (j < nb)%nat -> (b < nb)%nat ->
+  a <> i -> a <> j -> b <> i -> b <> j ->
+  nth (a * nb + b) (merge_port nb i j v) 0%N = nth (a * nb + b) v 0%N.
+Proof.
+  intros Hi Hj Hb Hai Haj Hbi Hbj. unfold merge_port.
+  rewrite !nth_upd_other; try (intros E; apply cell_inj in E; auto; destruct E; congruence).
+  apply merge_k_untouched; auto. intros k Hk. apply in_seq in Hk. lia.
+Qed.
+
+(* for both variants of the loop: a cell whose row and column are neither the
+   first port nor any port is never written *)
+Lemma merge_loop_values_untouched fixm nb i (objs0 : list oref) a b :
+  (i < nb)%nat -> (b < nb)%nat -> a <> i -> b <> i ->
+  is_nvswitch (nth a objs0 None) = false -> is_nvswitch (nth b objs0 None) = false ->
+  forall js (objs : list oref) v,
+  (forall j, In j js -> (j < nb)%nat) ->
+  (forall j, is_nvswitch (nth j objs None) = true -> is_nvswitch (nth j objs0 None) = true) ->
+  nth (a * nb + b) (snd (merge_loop fixm js nb i objs v)) 0%N = nth (a * nb + b) v 0%N.
+Proof.
+  intros Hi Hb Hai Hbi Pa Pb. unfold oref in *.
+  induction js as [|j js IH]; intros objs v Hjs Hinv; simpl; unfold oref in *; auto.
+  assert (Hj : (j < nb)%nat) by (apply Hjs; simpl; auto).
+  assert (Hinv' : forall j', is_nvswitch (nth j' (upd objs j None) None) = true -> is_nvswitch (nth j' objs0 None) = true).
+  { intros j' H. destruct (Nat.eq_dec j j') as [->|Hne].
+    - destruct (Nat.lt_ge_cases j' (length objs)).
+      + rewrite nth_upd_same in H by auto. discriminate.
+      + rewrite nth_overflow in H by (rewrite upd_length; auto). discriminate.
+    - rewrite nth_upd_other in H by auto. auto. }
+  destruct (is_nvswitch (nth j objs None)) eqn:E.
+  - rewrite IH; auto; [|intros; apply Hjs; simpl; auto].
+    apply merge_port_untouched; auto; intros ->; apply Hinv in E; congruence.
+  - destruct fixm; apply IH; auto; intros; apply Hjs; simpl; auto.
+Qed.
+
+(* ------------------------------------------------------------------ *)
+(* LINKS                                                               *)
+(* ------------------------------------------------------------------ *)
+Lemma zero_diag_length n nb v : length (zero_diag n nb v) = length v.
+Proof. induction n; simpl; auto. rewrite upd_length; auto. Qed.
+
+Lemma zero_diag_spec nb v a b : (a < nb)%nat -> (b < nb)%nat -> length v = (nb * nb)%nat ->
+  forall n, (n <= nb)%nat ->
+  nth (a * nb + b) (zero_diag n nb v) 0%N = if (a =? b)%nat && (a <? n)%nat then 0%N else nth (a * nb + b) v 0%N.
+Proof.
+  intros Ha Hb Hl. induction n as [|n IH]; intros Hn; simpl.
+  - rewrite andb_false_r; auto.
+  - assert (Hn' : (n < nb)%nat) by lia. specialize (IH (Nat.lt_le_incl _ _ Hn')).
+    destruct (Nat.eq_dec a n) as [->|Hne].
+    + destruct (Nat.eqb_spec n b) as [<-|Hnb].
+      * rewrite nth_upd_same. { rewrite (proj2 (Nat.ltb_lt n (S n))) by lia. reflexivity. }
+        rewrite zero_diag_length, Hl. nia.
+      * rewrite nth_upd_other by (intros E; apply cell_inj in E; auto; destruct E; congruence).
+        rewrite IH. destruct (Nat.eqb_spec n b); [congruence|]. reflexivity.
+    + rewrite nth_upd_other by (intros E; apply cell_inj in E; auto; destruct E; congruence).
+      rewrite IH. destruct (a =? b)%nat; simpl; auto.
+      destruct (a <? n)%nat eqn:E1, (a <? S n)%nat eqn:E2; auto;
+        apply Nat.ltb_lt in E1 || apply Nat.ltb_ge in E1; apply Nat.ltb_lt in E2 || apply Nat.ltb_ge in E2; lia.
+Qed.
+
+(* the fold that looks for the smallest positive value *)
+Lemma smallest_positive_spec v :
+  let d := smallest_positive v in
+  (d = 0%N -> Forall (fun x => x = 0%N) v) /\
+  (d <> 0%N -> In d v /\ Forall (fun x => x = 0%N \/ (d <= x)%N) v).
+Proof.
+  unfold smallest_positive.
+  assert (G : forall l acc,
+    let d := fold_left (fun div x => if negb (x =? 0)%N && ((div =? 0)%N || (x <? div)%N) then x else div) l acc in
+    (d = 0%N -> acc = 0%N /\ Forall (fun x => x = 0%N) l) /\
+    (d <> 0%N -> (d = acc \/ In d l) /\ (acc = 0%N \/ (d <= acc)%N) /\ Forall (fun x => x = 0%N \/ (d <= x)%N) l)).
+  { induction l as [|x l IH]; intros acc; simpl.
+    - split; [auto|]. intros H. split; auto. split; auto. right. lia.
+    - specialize (IH (if negb (x =? 0)%N && ((acc =? 0)%N || (x <? acc)%N) then x else acc)).
+      simpl in IH. destruct IH as [IH0 IH1]. split.
+      + intros H. destruct (IH0 H) as [Ha Hl].
+        destruct (N.eqb_spec x 0); simpl in Ha.
+        * subst. auto.
+        * destruct (N.eqb_spec acc 0); simpl in Ha; [congruence|].
+          destruct (N.ltb_spec x acc); simpl in Ha; congruence.
+      + intros H. destruct (IH1 H) as (Hin & Hle & Hall).
+        destruct (N.eqb_spec x 0) as [Ex|Ex]; simpl in *.
+        * subst x. split; [|split].
+          -- destruct Hin; [left|right; right]; auto.
+          -- exact Hle.
+          -- constructor; [left; reflexivity|auto].
+        * destruct (N.eqb_spec acc 0) as [Ea|Ea]; simpl in *.
+          -- subst acc. split; [|split].
+             ++ destruct Hin; [right; left|right; right]; auto.
+             ++ left; auto.
+             ++ constructor; [|auto]. right. destruct Hle; [congruence|auto].
+          -- destruct (N.ltb_spec x acc) as [Lt|Ge]; simpl in *.
+             ++ split; [|split].
+                ** destruct Hin; [right; left|right; right]; auto.
+                ** right. destruct Hle; [congruence|lia].
+                ** constructor; [|auto]. right. destruct Hle; [congruence|auto].
+             ++ split; [|split].
+                ** destruct Hin; [left|right; right]; auto.
+                ** exact Hle.
+                ** constructor; [|auto]. right. destruct Hle; [congruence|lia]. }
+  destruct (G v 0%N) as [G0 G1]. cbv zeta in G0, G1. cbv zeta. split.
+  - intros H. apply G0; auto.
+  - intros H. destruct (G1 H) as (Hin & _ & Hall). split; auto. destruct Hin as [Hin|Hin]; [congruence|auto].
+Qed.
+
+(* hwloc__distances_transform_links, all cases *)
+Lemma transform_links_spec p :
+  wf_pdist p ->
+  let nb := p_nb p in
+  let v0 := zero_diag nb nb (p_values p) in
+  let d := smallest_positive v0 in
+  (N.land (p_kind p) HWLOC_DISTANCES_KIND_VALUE_BANDWIDTH = 0%N -> transform_links p = (p, Err EINVAL)) /\
+  (N.land (p_kind p) HWLOC_DISTANCES_KIND_VALUE_BANDWIDTH <> 0%N ->
+     (d = 0%N -> transform_links p = (PDist (p_id p) nb (p_objs p) (p_kind p) v0, Ok tt) /\ Forall (fun x => x = 0%N) v0) /\
+     (d <> 0%N -> In d v0 /\ Forall (fun x => x = 0%N \/ (d <= x)%N) v0 /\
+        ((exists x, In x v0 /\ (x mod d <> 0)%N) ->
+           transform_links p = (PDist (p_id p) nb (p_objs p) (p_kind p) v0, Err ENOENT)) /\
+        (Forall (fun x => (x mod d = 0)%N) v0 ->
+           transform_links p = (PDist (p_id p) nb (p_objs p) (p_kind p) (map (fun x => (x / d)%N) v0), Ok tt) /\
+           Forall (fun x => (x / d * d = x)%N) v0))).
+Proof.
+  intros (Ho & Hv) nb v0 d. unfold transform_links. fold nb. fold v0.
+  assert (Hl : length v0 = (nb * nb)%nat) by (unfold v0; rewrite zero_diag_length; auto).
+  assert (Hf : firstn (nb * nb) v0 = v0) by (rewrite <- Hl; apply firstn_all).
+  assert (Hs : skipn (nb * nb) v0 = []) by (apply skipn_all2; lia).
+  rewrite Hf, Hs. fold d. split.
+  - intros H. rewrite H. reflexivity.
+  - intros H. destruct (N.eqb_spec (N.land (p_kind p) HWLOC_DISTANCES_KIND_VALUE_BANDWIDTH) 0); [congruence|].
+    destruct (smallest_positive_spec v0) as [S0 S1]. fold d in S0, S1. split.
+    + intros Hd. rewrite Hd. simpl. split; auto.
+    + intros Hd. destruct (S1 Hd) as [Hin Hall]. split; auto. split; auto.
+      destruct (N.eqb_spec d 0); [congruence|]. split.
+      * intros (x & Hx & Hm).
+        destruct (forallb (fun x0 => (x0 mod d =? 0)%N) v0) eqn:E; simpl; auto.
+        rewrite forallb_forall in E. specialize (E x Hx). apply N.eqb_eq in E. congruence.
+      * intros Hdiv.
+        assert (E : forallb (fun x0 => (x0 mod d =? 0)%N) v0 = true).
+        { apply forallb_forall. intros x Hx. rewrite Forall_forall in Hdiv. apply N.eqb_eq. auto. }
+        rewrite E. simpl. rewrite app_nil_r. split; auto.
+        eapply Forall_impl; [|exact Hdiv]. intros x Hx. simpl in Hx.
+        assert (Hdm := N.div_mod x d n0). rewrite Hx in Hdm. lia.
+Qed.
+
+(* ------------------------------------------------------------------ *)
+(* grouping: the matrix check and the minimal distance (accuracy 0)    *)
+(* ------------------------------------------------------------------ *)
+Lemma check_grouping_matrix_spec nb v :
+  check_grouping_matrix nb v = true <->
+  forall i j, (i < j)%nat -> (j < nb)%nat ->
+    vget v (i * nb + j) = vget v (j * nb + i) /\ (vget v (i * nb + i) < vget v (i * nb + j))%N.
+Proof.
+  unfold check_grouping_matrix. rewrite forallb_forall. split.
+  - intros H i j Hij Hj. assert (Hi : In i (seq 0 nb)) by (apply in_seq; lia).
+    specialize (H i Hi). rewrite forallb_forall in H.
+    assert (Hjs : In j (seq (S i) (nb - S i))) by (apply in_seq; lia).
+    specialize (H j Hjs). apply andb_true_iff in H as [H1 H2].
+    apply N.eqb_eq in H1. apply N.ltb_lt in H2. auto.
+  - intros H i Hi. apply in_seq in Hi. apply forallb_forall. intros j Hj. apply in_seq in Hj.
+    destruct (H i j) as [H1 H2]; try lia. apply andb_true_iff. split; [apply N.eqb_eq|apply N.ltb_lt]; auto.
+Qed.
+
+Lemma min_fold_spec (f : nat -> N) (c : nat -> bool) : forall js m0,
+  let r := fold_left (fun m j => if c j && (f j <? m)%N then f j else m) js m0 in
+  (r <= m0)%N /\ (forall j, In j js -> c j = true -> (r <= f j)%N) /\
+  (r = m0 \/ exists j, In j js /\ c j = true /\ r = f j).
+Proof.
+  induction js as [|j js IH]; intros m0; simpl.
+  - split; [lia|]. split; [tauto|auto].
+  - specialize (IH (if c j && (f j <? m0)%N then f j else m0)). simpl in IH.
+    destruct IH as (I1 & I2 & I3).
+    destruct (c j) eqn:Ec; simpl in *.
+    + destruct (N.ltb_spec (f j) m0) as [L|G].
+      * split; [lia|]. split.
+        -- intros j' [<-|Hj'] Hc; auto.
+        -- destruct I3 as [->|(j' & Hj' & Hc & ->)]; right; [exists j|exists j']; auto.
+      * split; [auto|]. split.
+        -- intros j' [<-|Hj'] Hc; auto; lia.
+        -- destruct I3 as [->|(j' & Hj' & Hc & ->)]; [left|right; exists j']; auto.
+    + split; [auto|]. split.
+      * intros j' [<-|Hj'] Hc; auto; congruence.
+      * destruct I3 as [->|(j' & Hj' & Hc & ->)]; [left|right; exists j']; auto.
+Qed.
+
+(* min_distance is the least off-diagonal value (UINT64_MAX if there is none below it) *)
+Lemma min_distance_spec nb v :
+  let m := min_distance nb v in
+  (forall i j, (i < nb)%nat -> (j < nb)%nat -> i <> j -> (m <= vget v (i * nb + j))%N) /\
+  (m = UINT64_MAX \/ exists i j, (i < nb)%nat /\ (j < nb)%nat /\ i <> j /\ m = vget v (i * nb + j)).
+Proof.
+  unfold min_distance.
+  assert (G : forall is m0,
+    let r := fold_left (fun m i => fold_left (fun m j =>
+        if negb (i =? j)%nat && (vget v (i * nb + j) <? m)%N then vget v (i * nb + j) else m) (seq 0 nb) m) is m0 in
+    (r <= m0)%N /\
+    (forall i j, In i is -> (j < nb)%nat -> i <> j -> (r <= vget v (i * nb + j))%N) /\
+    (r = m0 \/ exists i j, In i is /\ (j < nb)%nat /\ i <> j /\ r = vget v (i * nb + j))).
+  { induction is as [|i is IH]; intros m0; simpl.
+    - split; [lia|]. split; [tauto|auto].
+    - destruct (min_fold_spec (fun j => vget v (i * nb + j)) (fun j => negb (i =? j)%nat) (seq 0 nb) m0) as (J1 & J2 & J3).
+      simpl in J1, J2, J3.
+      set (m1 := fold_left _ (seq 0 nb) m0) in *.
+      specialize (IH m1). simpl in IH. destruct IH as (I1 & I2 & I3).
+      split; [lia|]. split.
+      + intros i' j [<-|Hi'] Hj Hne.
+        * assert (Hle := J2 j). rewrite in_seq in Hle.
+          assert (negb (i =? j)%nat = true) by (apply negb_true_iff, Nat.eqb_neq; auto).
+          specialize (Hle ltac:(lia) H). lia.
+        * apply I2; auto.
+      + destruct I3 as [E|(i' & j & Hi' & Hj & Hne & E)].
+        * destruct J3 as [E'|(j & Hj & Hc & E')].
+          -- left. congruence.
+          -- right. exists i, j. apply in_seq in Hj. apply negb_true_iff, Nat.eqb_neq in Hc.
+             repeat split; auto; try lia. congruence.
+        * right. exists i', j. auto. }
+  destruct (G (seq 0 nb) UINT64_MAX) as (_ & G2 & G3). cbv zeta in G2, G3. cbv zeta. split.
+  - intros i j Hi Hj Hne. apply G2; auto. apply in_seq; lia.
+  - destruct G3 as [E|(i & j & Hi & Hj & Hne & E)]; [left; auto|].
+    right. exists i, j. apply in_seq in Hi. repeat split; auto; lia.
+Qed.
